@@ -26,7 +26,7 @@ RFC_CONTROL_OIDS = {
     'ControlType::ManageDsaIt': '2.16.840.1.113730.3.4.2',       # RFC 3296
     'ControlType::MatchedValues': '1.2.826.0.1.3344810.2.3',     # RFC 3876
 }
-FROM = 'ldap3::<result::LdapResultExt as core::convert::From<lber::structures::Tag>>::from'
+FROM = '<ldap3::result::LdapResultExt as core::convert::From<lber::structures::Tag>>::from'
 
 def calls_in(t):
     return [x[1].rsplit('::', 1)[-1] for x in absx.leaves(t, lambda x: x[0] == 'call')]
@@ -233,7 +233,7 @@ def run(ctx):
     for need in ('absent', 'boolean', 'boolean+value', 'octet-string'):
         ctx.add('T3.coverage', need, loc(P.root), need in seen, 'no path of parse_controls for a second component that is ' + need)
     # the OID table
-    init = [h for p, h in f.hir.items() if p.startswith('ldap3::<controls_impl::CONTROLS as core::ops::deref::Deref>::deref::__static_ref_initialize')]
+    init = [h for p, h in f.hir.items() if p.startswith('<ldap3::controls_impl::CONTROLS as core::ops::deref::Deref>::deref::__static_ref_initialize')]
     init = anchors.one('CONTROLS initialiser', init)
     got = {}
     for n, c in walk(init['body']):
